@@ -30,6 +30,12 @@ func (e *ErrUnknownIdentifier) Error() string {
 }
 
 type compiler struct {
+	// values of the identifiers the parser made up to stand for an indexed
+	// element (a[i].b) or a call result (f().b) while the member expression
+	// that follows is evaluated; keyed by the node, not by a name, so that no
+	// variable of the template can shadow them or be shadowed by them
+	temps map[*ast.Identifier]interface{}
+
 	ctx     hctx.Context
 	program *ast.Program
 	curStmt ast.Statement
@@ -591,6 +597,11 @@ func (c *compiler) evalIdentifier(node *ast.Identifier) (interface{}, error) {
 		return f.Interface(), nil
 	}
 
+	if v, ok := c.temps[node]; ok {
+		// an indexed element or a call result the rest of a path is selected from
+		return v, nil
+	}
+
 	if c.ctx.Has(node.Value) {
 		return c.ctx.Value(node.Value), nil
 	}
@@ -1019,14 +1030,7 @@ func (c *compiler) evalCallExpression(node *ast.CallExpression) (interface{}, er
 			return nil, fmt.Errorf("could not call %s function: %w", node.Function, e)
 		}
 		if node.ChainCallee != nil {
-			defer c.scope()()
-
-			c.ctx.Set(node.Function.String(), res[0].Interface())
-			vvs, err := c.evalExpression(node.ChainCallee)
-			if err != nil {
-				return nil, err
-			}
-			return vvs, err
+			return c.evalMemberOf(res[0].Interface(), node.ChainCallee)
 		}
 		return res[0].Interface(), nil
 	}
@@ -1302,29 +1306,43 @@ func (c *compiler) evalArrayLiteral(node *ast.ArrayLiteral) (interface{}, error)
 }
 
 func (c *compiler) evalIndexCallee(rv reflect.Value, node *ast.IndexExpression) (interface{}, error) {
-	defer c.scope()()
+	return c.evalMemberOf(rv.Interface(), node.Callee)
+}
 
-	// The member expression after the index (node.Callee) starts, at the root
-	// of its callee chain, with an identifier the parser made up to stand
-	// for the indexed element: "person.Names" in person.Names[0].First, or
-	// "Names" when this is an inner level of person.Teams[1].Names[0].First.
-	// Bind the element under exactly that name, so that evaluating the member
-	// expression finds it. (The name used to be guessed by comparing the
-	// printed forms of the two sides, which went wrong for method calls and
-	// when one member name contained another.)
-	key, ok := calleeRootName(node.Callee)
-	if !ok {
-		key = node.Left.String()
+// evalMemberOf evaluates member, the expression that follows an index or a
+// call (the ".First" of person.Names[0].First or of person.Pick(0).First),
+// for the element or call result v. The parser made up an identifier to
+// stand for v and put it at the root of member's callee chain; v is bound to
+// that very node while member is evaluated. (It used to be bound to a name
+// in a temporary scope: the printed form of the indexed expression or of the
+// called function. An inner level of a path is printed as a bare member
+// name - "Names" - which hid a template variable of that name from the
+// indexes and arguments further down the path, and the printed form of a
+// call with a receiver chain of its own - x[0].a.M().b - is not the same at
+// run time as when the parser made the name up.)
+func (c *compiler) evalMemberOf(v interface{}, member ast.Expression) (interface{}, error) {
+	root := calleeRoot(member)
+	if root == nil {
+		return nil, fmt.Errorf("invalid member access (%s)", member)
 	}
 
-	c.ctx.Set(key, rv.Interface())
-
-	vvs, err := c.evalExpression(node.Callee)
-	if err != nil {
-		return nil, err
+	if c.temps == nil {
+		c.temps = map[*ast.Identifier]interface{}{}
 	}
 
-	return vvs, nil
+	// the same expression can be under evaluation further up the stack (a
+	// function of the template that calls itself)
+	prev, nested := c.temps[root]
+	c.temps[root] = v
+	defer func() {
+		if nested {
+			c.temps[root] = prev
+		} else {
+			delete(c.temps, root)
+		}
+	}()
+
+	return c.evalExpression(member)
 }
 
 // fieldByName is reflect.Value.FieldByName for a struct value, except that a
@@ -1349,27 +1367,27 @@ func fieldByName(rv reflect.Value, name string) (f reflect.Value, reachable bool
 	return rv, true
 }
 
-// calleeRootName finds the identifier at the root of the callee chain of a
+// calleeRoot finds the identifier at the root of the callee chain of a
 // member expression.
-func calleeRootName(e ast.Expression) (string, bool) {
+func calleeRoot(e ast.Expression) *ast.Identifier {
 	switch t := e.(type) {
 	case *ast.Identifier:
 		if t == nil {
-			return "", false
+			return nil
 		}
 		for t.Callee != nil {
 			t = t.Callee
 		}
-		return t.Value, true
+		return t
 	case *ast.IndexExpression:
-		return calleeRootName(t.Left)
+		return calleeRoot(t.Left)
 	case *ast.CallExpression:
 		if t.Callee != nil {
-			return calleeRootName(t.Callee)
+			return calleeRoot(t.Callee)
 		}
-		return calleeRootName(t.Function)
+		return calleeRoot(t.Function)
 	}
-	return "", false
+	return nil
 }
 
 // show prints a value inside an error message. A value that contains itself
